@@ -319,6 +319,7 @@ def install(E):
         MODULE_CLS.ns[nm] = Builtin("Module." + nm, fn)
     CONV2D_CLS.ns["_conv_forward"] = Builtin("Conv2d._conv_forward", conv_forward)
     MODULE_CLS.ns["to"] = Builtin("Module.to", module_to)
+    MODULE_CLS.ns["to_empty"] = Builtin("Module.to_empty", lambda E2, self, *a, **k: self)
     MODULE_CLS.ns["__init__"] = Builtin("Module.__init__", module_init)
     MODULE_CLS.ns["register_buffer"] = Builtin("Module.register_buffer", register_buffer)
     LINEAR_CLS.ns["__init__"] = Builtin("Linear.__init__", linear_init)
